@@ -2,5 +2,6 @@
 pub mod c04;
 pub mod c05;
 pub mod c08;
+pub mod c17;
 pub mod c20;
 pub mod tree;
